@@ -67,10 +67,10 @@ theorem binPres_perm {xs ys : List ALeaf} (p : xs.Perm ys) (k : Bin) : binPres x
   unfold binPres
   cases h1 : xs.any (·.pres k) <;> cases h2 : ys.any (·.pres k) <;> try rfl
   · obtain ⟨l, hl, hp⟩ := List.any_eq_true.mp h2
-    have := List.any_eq_true.mpr ⟨l, p.mem_iff.mpr hl, hp⟩
+    have : xs.any (·.pres k) = true := List.any_eq_true.mpr ⟨l, p.mem_iff.mpr hl, hp⟩
     rw [h1] at this; cases this
   · obtain ⟨l, hl, hp⟩ := List.any_eq_true.mp h1
-    have := List.any_eq_true.mpr ⟨l, p.mem_iff.mp hl, hp⟩
+    have : ys.any (·.pres k) = true := List.any_eq_true.mpr ⟨l, p.mem_iff.mp hl, hp⟩
     rw [h2] at this; cases this
 
 /-- **order freedom of whole results**: two merge trees (any bracketing) over any two orderings of the same
@@ -104,5 +104,48 @@ theorem ATree.order_free (lim : Nat) (pick : List Int → Nat) (collect : Bool) 
       have rep1' := rep1.perm (binVals_perm hperm k)
       have heq := rep1'.eqv rep2
       exact ⟨c₁, c₂, e1, e2, heq, fun fixed fn qs => getAggBucket_eqv fixed fn qs k heq rep1'.wf rep2.wf⟩
+
+end SV.Agg
+
+namespace SV.Agg
+
+/-! ## counters across any merge tree (count / unique: containers that carry no values) -/
+
+def ototal (o : Option SC) : Nat := (o.map (·.total)).getD 0
+
+theorem omerge_total (lim : Nat) (pick : List Int → Nat) (a b : Option SC) :
+    ototal (omerge lim pick a b) = ototal a + ototal b ∧
+    (omerge lim pick a b).isSome = (a.isSome || b.isSome) := by
+  cases b with
+  | none => simp [omerge, ototal]
+  | some h =>
+    cases a with
+    | none => simp [omerge, ototal, SC.new]
+    | some c => simp [omerge, ototal]
+
+/-- plain merge tree of whole results -/
+def evalAS (lim : Nat) (pick : List Int → Nat) (t : MTree AS) : AS := t.eval (AS.merge lim pick)
+
+theorem evalAS_counters (lim : Nat) (pick : List Int → Nat) (t : MTree AS)
+    (hleaf : ∀ l, l ∈ t.leaves → KeysNodup l.bins) :
+    KeysNodup (evalAS lim pick t).bins ∧
+    (evalAS lim pick t).notExists = (t.leaves.map (·.notExists)).sum ∧
+    ∀ k, ototal ((evalAS lim pick t).get k) = (t.leaves.map fun l => ototal (l.get k)).sum ∧
+         ((evalAS lim pick t).get k).isSome = t.leaves.any fun l => (l.get k).isSome := by
+  induction t with
+  | leaf a =>
+    refine ⟨hleaf a (by simp [MTree.leaves]), by simp [evalAS, MTree.eval, MTree.leaves], fun k => ?_⟩
+    simp [evalAS, MTree.eval, MTree.leaves]
+  | node l r ihl ihr =>
+    have h1 := ihl (fun x hx => hleaf x (by simp [MTree.leaves]; exact Or.inl hx))
+    have h2 := ihr (fun x hx => hleaf x (by simp [MTree.leaves]; exact Or.inr hx))
+    refine ⟨merge_nodup lim pick _ _ h1.1, ?_, fun k => ?_⟩
+    · simp only [evalAS, MTree.eval, MTree.leaves, List.map_append, List.sum_append] at *
+      rw [AS.merge_notExists, h1.2.1, h2.2.1]
+    · simp only [evalAS, MTree.eval, MTree.leaves, List.map_append, List.sum_append, List.any_append] at *
+      rw [AS.merge_get lim pick _ _ h2.1]
+      have := omerge_total lim pick ((MTree.eval (AS.merge lim pick) l).get k) ((MTree.eval (AS.merge lim pick) r).get k)
+      rw [this.1, this.2, (h1.2.2 k).1, (h2.2.2 k).1, (h1.2.2 k).2, (h2.2.2 k).2]
+      exact ⟨rfl, rfl⟩
 
 end SV.Agg
